@@ -15,6 +15,7 @@ def _root_.AwsVerif.ByteBuf.Op.resets : Op → Option Nat
   | .cleanUp b => some b
   | .cleanUpSecure b => some b
   | .readAndFillBuffer _ b => some b
+  | .initFromFile b _ _ _ => some b
   | _ => none
 
 /-- the first `(s.bufs i).len` bytes of buffer `i` are the same in `s'`, and its length did not shrink -/
@@ -409,5 +410,17 @@ theorem step_prefix {s s' : State} {op : Op} {r : Res} (hw : WF s) (e : step s o
     simp only [step] at e
     obtain ⟨⟨e1, v⟩, _, e⟩ := bind_ok e
     cases e; exact PrefixKept.refl _ _
+  | hashIgnoreCase c =>
+    simp only [step] at e
+    obtain ⟨v, _, e⟩ := bind_ok e
+    cases e; exact PrefixKept.refl _ _
+  | initFromFile b f useHint sizeHint =>
+    simp only [step] at e
+    split at e
+    · cases e
+    · rename_i hmax
+      obtain ⟨⟨e1, m1, nb⟩, hcore, e⟩ := bind_ok e
+      cases e
+      exact prefixKept_setBufMem hw (bufInitFromFile_spec (hw.bufOk b) (by omega) hcore).1 (fun h => (hne rfl h).elim)
 
 end AwsVerif.Proofs.C01
